@@ -48,6 +48,7 @@ type universe struct {
 	fns  []uFn
 	maps []uMap
 	locs []uLoc
+	big  bool // values beyond 2^53 (not representable as float64) occur
 }
 
 func baseUniverse(r *rand.Rand) *universe {
@@ -382,7 +383,11 @@ func (u *universe) randSample(r *rand.Rand, ntypes int) uSample {
 		s.locs = append(s.locs, r.Intn(len(u.locs)))
 	}
 	for i := 0; i < ntypes; i++ {
-		s.values = append(s.values, int64(r.Intn(5)-2))
+		v := int64(r.Intn(5) - 2)
+		if u.big && r.Intn(2) == 0 {
+			v = []int64{1<<53 + 1, 1<<53 + 3, -(1<<53 + 1), 1<<60 + 1, 1<<56 + 7, 3}[r.Intn(6)]
+		}
+		s.values = append(s.values, v)
 	}
 	if r.Intn(3) == 0 {
 		s.label = map[string][]string{}
@@ -587,6 +592,7 @@ func typesOf(p *profile.Profile) string {
 func runMerge(c *harness.Ctx) harness.Result {
 	r := c.Rng
 	u := baseUniverse(r)
+	u.big = r.Intn(5) == 0
 	types := [][2]string{{"a", "count"}, {"b", "ms"}}
 	if r.Intn(4) == 0 {
 		types = types[:1]
